@@ -43,6 +43,7 @@ def faultOf : String → Except String Fault
   | "exit" => pure .exit
   | "closeout" => pure .closeout
   | "http500" => pure .http500
+  | "errBodyStall" => pure .http500   -- a non-200 answer whose body stalls: refused as well; the caller's context ends the read of the body
   | "http404" => pure .http500   -- any non-200 answer: a body is handed out, the exchange is refused
   | s => throw s!"fault {s}"
 
@@ -214,7 +215,7 @@ def ledgerJson (s : St) (idx : List Nat) : Json :=
     has returned (`Cfg.connected`); the transport is up in every case (`init`). -/
 def runHandshake (f : Facts) (t : Transport) (step : String) (during getSSE : Bool) : Json := Id.run do
   -- `getHold` on the Streamable client: the handshake succeeds, the listening stream's GET is accepted and never answered
-  let success := step == "none" || (step == "getHold" && t.http)
+  let success := step == "none" || ((step == "getHold" || step == "getErrStall") && t.http)
   let cfg : Cfg := { t := t, getSSE := getSSE && (success || during), connected := success && !during }
   let sc : Scen := { t := t, fr := .length, handlers := false, n := 1, answered := 0, fault := .none, pos := .frameEnd, ctx := "none",
                      post := false, accept := false, afterInit := false, closeLive := true }
@@ -244,7 +245,7 @@ def runHandshake (f : Facts) (t : Transport) (step : String) (during getSSE : Bo
       s := apply f cfg s (if t.http then [.headers 0 false] else [.connErr 0])
     else if step == "exit" then
       s := apply f cfg s [.procExit, .readerExit, .watcherExit]
-    else if step == "getHold" && t = .sse && !f.selCtx then
+    else if (step == "getHold" || step == "getErrStall" || step == "getErr404Stall") && t = .sse && !f.selCtx then
       -- the stream request of the handshake is not bounded by the caller's context (fact `selCtx` of the legacy SSE client
       -- includes `start`'s request): the caller's deadline is no exit of this wait; Initialize is still waiting when the
       -- harness gives up on it (the Close() that follows releases it)
